@@ -702,7 +702,9 @@ func ruleOptClosed(p *Program, r *Reporter) {
 		}
 		if !writesProgram(info, hd) {
 			// a pass all of whose writing is done by its parts: read with them
-			if fnPkg(home) == nil || fnPkg(home).Pkg.Path() != Mod+"/vm" {
+			// (a function that itself decides on opcodes — the dispatching
+			// half of a pass —, not a driver that merely calls the passes)
+			if fnPkg(home) == nil || fnPkg(home).Pkg.Path() != Mod+"/vm" || !namesOpcodes(info, hd) {
 				continue
 			}
 			known := false
@@ -1463,4 +1465,28 @@ func foldWindowSSA(p *Program) (*ssa.Function, map[string]token.Pos, int) {
 		}
 	}
 	return fold, bad, n
+}
+
+// namesOpcodes: the function's text switches on an opcode or compares one
+// with an opcode constant.
+func namesOpcodes(info *types.Info, fd *ast.FuncDecl) bool {
+	found := false
+	ast.Inspect(fd.Body, func(n ast.Node) bool {
+		switch x := n.(type) {
+		case *ast.SwitchStmt:
+			if x.Tag != nil {
+				if tv, ok := info.Types[x.Tag]; ok && isOpcodeType(tv.Type) {
+					found = true
+				}
+			}
+		case *ast.BinaryExpr:
+			if x.Op == token.EQL || x.Op == token.NEQ {
+				if opConstName(info, x.X) != "" || opConstName(info, x.Y) != "" {
+					found = true
+				}
+			}
+		}
+		return !found
+	})
+	return found
 }
